@@ -242,6 +242,14 @@ def packLifeStep (e : Handle) (isCreate : Bool) (acc : PackLife) (ck : Cmd × Na
       { acc with p := { acc.p with final := closedMask acc.w.deps (Mask.insert acc.p.final c), src := src },
                  srcIdx := srcIdx }
 
+/-- the archetype a pack ends in, as in `WM.applyPack`: an existing entity whose component set did not change stays in
+its archetype (no lookup); otherwise `getArchetype` of the final set -/
+def packTargetArch (e : Handle) (isCreate : Bool) (initial : Mask) (sh : Shared) (w : WM) (p : PackSt) : WM × Nat :=
+  let stay : Option Nat := if isCreate || !(initial == p.final) then none else (w.locOf e).arch
+  match stay with
+  | some pi => (w, pi)
+  | none => w.getArch p.final sh
+
 /-- the second half of `applyCommandPack`: the single insertion / move, the stale instances, the supplied values.
 The entity's row afterwards (`locations_[entity.id()].index`) is the new last row of the target when it was inserted
 or moved, else the row it is in. -/
@@ -250,8 +258,9 @@ def packFinishEvents (t : Nat) (e : Handle) (isCreate : Bool) (initial : Mask) (
   if st.p.dead then st.evs else
   let p := st.p
   let supplied := Mask.ofList (p.src.map (·.1))
-  let w := (st.w.getArch p.final sh).1
-  let ti := (st.w.getArch p.final sh).2
+  let g : WM × Nat := packTargetArch e isCreate initial sh st.w p
+  let w := g.1
+  let ti := g.2
   let tm := (w.arch ti).mask
   let moved : List Event × Nat :=
     if isCreate then (w.archInsertEvents ti supplied, (w.arch ti).rows.length)
